@@ -215,7 +215,7 @@ func genPattern(t *rapid.T, allowBad bool) string {
 	n := rapid.IntRange(0, 6).Draw(t, "plen")
 	var b strings.Builder
 	for i := 0; i < n; i++ {
-		if allowBad && rapid.IntRange(0, 250).Draw(t, "bad") == 0 {
+		if allowBad && rapid.IntRange(0, 120).Draw(t, "bad") == 77 {
 			b.WriteString(rapid.SampledFrom(badAtoms).Draw(t, "badatom"))
 			continue
 		}
@@ -256,7 +256,7 @@ func instantiate(t *rapid.T, p string) string {
 }
 
 func genCase(t *rapid.T) Case {
-	np := rapid.SampledFrom([]int{0, 1, 1, 2, 2, 2, 3, 3, 3, 4, 4, 2, 2, 3}).Draw(t, "np")
+	np := rapid.SampledFrom([]int{2, 2, 3, 2, 1, 3, 4, 2, 3, 1, 0, 4, 2, 3}).Draw(t, "np")
 	ps := make([]string, np)
 	for i := range ps {
 		ps[i] = genPattern(t, true)
